@@ -29,6 +29,12 @@ CHECKS = {
     "C14": ("abstract interpretation with linear forms and Euclid/truncating-remainder axioms; decision tables; E5 frame rule",
             "floor: F <= x, x - F < |s|, F = x - (x mod s) with operands provably the exact counts; zero step => 0; ceil = floor + |s| (MAX on overflow); round picks floor iff strictly nearer (ties up); Epoch forms delegate in the epoch's own scale.",
             "3.C14"),
+    "C17": ("abstract interpretation with uninterpreted scale conversion, constant folding (IEEE doubles) and table agreement with the statement's constants",
+            "Every Duration-valued JD/MJD/UNIX view is to_S_duration() + K with K equal to the statement's constant; every float view is to_unit/to_seconds of such a duration with the right unit; from_mjd/from_jde/from_unix mirror the constants.",
+            "3.C17"),
+    "C20": ("abstract interpretation with linear forms and division axioms; dominating-guard and delegation rules",
+            "from_time_of_week = from_total_nanoseconds(ns + week*7d) in the given scale; to_time_of_week satisfies week*7d+ns == count, 0 <= ns < 7d for non-negative counts; GNSS ns counters exact, Ok only under centuries == 0; day-of-year siblings share the anchor with paired +/-1.0.",
+            "3.C20"),
 }
 
 NOT_YET = {}
